@@ -29,7 +29,7 @@ struct Thread { pthread_cond_t tcv; int id; std::thread th; pthread_t pth; bool 
 struct MutexSt { int owner; int count; MutexSt():owner(-1),count(0){} }; struct RwSt { int writer; std::map<int,int> readers; RwSt():writer(-1){} };
 struct Point { int n; bool current_enabled; int chosen; };
 struct State { bool active; std::vector<Thread*> threads; int current; pthread_mutex_t mx; pthread_cond_t cv; std::map<void*,MutexSt> mutexes; std::map<void*,RwSt> rwlocks; std::map<void*,std::vector<int> > cond_waiters; std::vector<int> prefix; std::vector<Point> points; bool deadlock; bool diverged; std::string trace; uint64_t readers_overlap,writer_waited; long long vnow_ms; bool virtual_clock; long long horizon_ms; int horizon_jumps; int time_advances; bool adopt_threads; State():active(false),current(-1),deadlock(false),diverged(false),readers_overlap(0),writer_waited(0),vnow_ms(0),virtual_clock(false),horizon_ms(600000),horizon_jumps(0),time_advances(0),adopt_threads(false){ pthread_mutex_init(&mx,0); pthread_cond_init(&cv,0); } };
-static State G; static thread_local int tl_id=-1;
+static State G; static thread_local int tl_id=-1; static thread_local bool tl_in_sched=false; /* the calling thread is inside the scheduler (instrumentation hooks must not re-enter) */ struct InSched { bool prev; InSched():prev(tl_in_sched){ tl_in_sched=true; } ~InSched(){ tl_in_sched=prev; } };
 
 static void wake_all(){ for(size_t i=0;i<G.threads.size();i++) real_csignal(&G.threads[i]->tcv); real_cbroadcast(&G.cv); }
 static bool enabled(Thread *t){ if(t->finished) return false; switch(t->pending){ case OP_MLOCK: case OP_CREACQ: { MutexSt &m=G.mutexes[t->obj]; return m.owner<0||m.owner==t->id; } case OP_RDLOCK:{ RwSt &r=G.rwlocks[t->obj]; return r.writer<0; } case OP_WRLOCK:{ RwSt &r=G.rwlocks[t->obj]; return r.writer<0&&r.readers.empty(); } case OP_CWAIT: return false; /* until signalled (turned into OP_CREACQ) */ case OP_JOIN: return t->join_target<0||G.threads[t->join_target]->finished; case OP_POLL: return (t->deadline_ms>=0&&G.vnow_ms>=t->deadline_ms)||(t->probe&&t->probe()); default: return true; } }
@@ -52,7 +52,7 @@ static void schedule_next(){ std::vector<int> en; Thread *cur= G.current>=0?G.th
 static void wait_turn(int id){ Thread *t=G.threads[id]; while(G.current!=id&&G.current!=-2) real_cwait(&t->tcv,&G.mx); }
 
 // a scheduling point of the calling (registered) thread
-static void point(OpKind k,void *obj,void *obj2=0){ Thread *t=G.threads[tl_id]; real_mlock(&G.mx); t->pending=k; t->obj=obj; t->obj2=obj2; if(k==OP_CWAIT){ /* release the mutex and join the wait set before anybody else runs */ MutexSt &m=G.mutexes[obj2]; if(m.owner==t->id&&--m.count==0) m.owner=-1; G.cond_waiters[obj].push_back(t->id); }
+static void point(OpKind k,void *obj,void *obj2=0){ InSched guard_in_sched; Thread *t=G.threads[tl_id]; real_mlock(&G.mx); t->pending=k; t->obj=obj; t->obj2=obj2; if(k==OP_CWAIT){ /* release the mutex and join the wait set before anybody else runs */ MutexSt &m=G.mutexes[obj2]; if(m.owner==t->id&&--m.count==0) m.owner=-1; G.cond_waiters[obj].push_back(t->id); }
 	schedule_next(); wait_turn(t->id); if(G.current==-2){ /* deadlock: let everybody run out (operations become no-ops on the model) */ t->pending=OP_NONE; real_munlock(&G.mx); return; } apply(t); real_munlock(&G.mx); }
 static void thread_main(Thread *t){ tl_id=t->id; real_mlock(&G.mx); wait_turn(t->id); real_munlock(&G.mx); if(G.current!=-2){ try{ t->body(); }catch(...){ } } real_mlock(&G.mx); t->finished=true; t->pending=OP_NONE; if(G.current==t->id) schedule_next(); real_munlock(&G.mx); tl_id=-1; }
 
@@ -71,6 +71,10 @@ static uint64_t explore(int bound,const std::function<std::vector<std::function<
 // a plain scheduling point (harness bodies call it around operations that are not synchronisation operations themselves)
 static void yield_point(){ if(G.active&&tl_id>=0) point(OP_YIELD,0); }
 static int self_id(){ return tl_id; }
+// does thread id hold the shared side of some rwlock (on the scheduler's model)? Only the running thread may ask.
+static bool holds_shared(int id){ for(std::map<void*,RwSt>::iterator i=G.rwlocks.begin();i!=G.rwlocks.end();++i) if(i->second.readers.count(id)) return true; return false; }
+// a scheduling point requested by instrumentation of the code under test (never from inside the scheduler)
+static void fine_point(){ if(G.active&&tl_id>=0&&!tl_in_sched) point(OP_YIELD,0); }
 // block the calling thread until pred() holds (evaluated by the scheduler whenever it looks for enabled threads)
 static void block_until(const std::function<bool()> &pred){ if(!(G.active&&tl_id>=0)){ while(!pred()) usleep(100); return; } Thread *t=G.threads[tl_id]; t->probe=pred; t->deadline_ms=-1; point(OP_POLL,0); t->probe=std::function<bool()>(); }
 // adoption of threads created by the code under test
